@@ -1096,8 +1096,23 @@ static double cheapEstimatedCost(ConnRef *lineRef)
     return length - (route.size() + 1);
 }
 
+// Orders connectors by their IDs rather than by their addresses, so that 
+// ties between equally bad connectors are broken the same way in every run.
+class CmpConnRefById
+{
+    public:
+        bool operator() (const ConnRef *u, const ConnRef *v) const
+        {
+            return (u->id() < v->id());
+        }
+};
+
+// The set of connectors that cross a connector.
+typedef std::set<ConnRef *, CmpConnRefById> CrossingConnectorsSet;
+
 // A map of connectors to the set of connectors that cross them.
-typedef std::map<ConnRef *, std::set<ConnRef *> > CrossingConnectorsMap;
+typedef std::map<ConnRef *, CrossingConnectorsSet, CmpConnRefById> 
+        CrossingConnectorsMap;
 
 // A list of connector crossing maps that don't interact with each other.
 typedef std::list<CrossingConnectorsMap> CrossingConnectorsMapList;
@@ -1288,9 +1303,9 @@ class CrossingConnectorsInfo
 
             // Remove the candidate from the group.  To do this we find the
             // set of all connectors it crosses.
-            std::set<ConnRef *>& connSet = pairsSet[candidateConnector];
+            CrossingConnectorsSet& connSet = pairsSet[candidateConnector];
             // For each of these
-            for (std::set<ConnRef *>::const_iterator it = connSet.begin();
+            for (CrossingConnectorsSet::const_iterator it = connSet.begin();
                     it != connSet.end(); ++it)
             {
                 // we remove the candidate from their crossing lists
